@@ -18,7 +18,7 @@ import (
 func init() {
 	register(&Prop{
 		ID: "C06", Level: "exploration",
-		Rule: "case = (contents of 0..40 items built by a random history incl. deletes and overwrites; comparator in {bytes.Compare, reverse, length-then-lexicographic}; cache state in {never flushed (all cached, dirty), flushed and freshly re-opened (nothing loaded), flushed and evicted k times, mixed after partial key-only/with-value reads}). Inside a case the targets are DERIVED FROM THE CONTENTS: every present key, k+\\x00, a predecessor string of k, a key below the minimum, above the maximum, the empty slice and nil. For every target all six APIs (VisitItemsAscend/Descend, the Ex variants, IterateAscend/Descend) run in both value modes and must deliver exactly the model's range (ascend: key >= target ascending; descend: key < target descending) with the right key, priority and (when requested) value; then EVERY early-stop position 0..len(range) is tried on two of the APIs. Ex depths are compared with the node's true depth from the hook walk + decoder, and with the canonical treap depth when priorities are distinct. The cache state is re-established between targets. Concurrent cases: 2-4 readers run whole and early-stopped visits in both value modes (plus lookups) on a cold file next to a mutator that mutates and evicts, under the deterministic yield-point scheduler (switches at every file call and callback), so that one visit evicts or re-loads an item while another is upgrading it to carry its value; every delivered sequence must be exactly one version's range with the values requested. evaluations counts visits. Non-trivial = visit of a non-empty range or with an early stop; distinct = distinct (case, target, api, mode, stop).",
+		Rule: "case = (contents of 0..40 items built by a random history incl. deletes and overwrites; comparator in {bytes.Compare, reverse, length-then-lexicographic}; cache state in {never flushed (all cached, dirty), flushed and freshly re-opened (nothing loaded), flushed and evicted k times, mixed after partial key-only/with-value reads, a snapshot taken while unwritten whose shared nodes the original persisted afterwards, items written at offsets that a FlushRevert freed after the earlier occupants had been read}). Inside a case the targets are DERIVED FROM THE CONTENTS: every present key, k+\\x00, a predecessor string of k, a key below the minimum, above the maximum, the empty slice and nil. For every target all six APIs (VisitItemsAscend/Descend, the Ex variants, IterateAscend/Descend) run in both value modes and must deliver exactly the model's range (ascend: key >= target ascending; descend: key < target descending) with the right key, priority and (when requested) value; then EVERY early-stop position 0..len(range) is tried on two of the APIs. Ex depths are compared with the node's true depth from the hook walk + decoder, and with the canonical treap depth when priorities are distinct. The cache state is re-established between targets. Concurrent cases: 2-4 readers run whole and early-stopped visits in both value modes (plus lookups) on a cold file next to a mutator that mutates and evicts, under the deterministic yield-point scheduler (switches at every file call and callback), so that one visit evicts or re-loads an item while another is upgrading it to carry its value; every delivered sequence must be exactly one version's range with the values requested. evaluations counts visits. Non-trivial = visit of a non-empty range or with an early stop; distinct = distinct (case, target, api, mode, stop).",
 		Assumptions: []string{
 			"items handed to the visitor are read inside the callback only; with withValue=false Val is not compared",
 			"comparators are total orders consistent with byte inequality",
@@ -26,7 +26,7 @@ func init() {
 		NumCases: func(tier string) int { return pick(tier, 160, 6000) + pick(tier, 800, 30000) },
 		Run:      runC06,
 		Floor: func(tier string, st map[string]int64) string {
-			for _, k := range []string{"c06.visits", "c06.early-stops", "c06.nil-target", "c06.empty-collection-cases", "c06.cmp=rev", "c06.cmp=lenlex", "c06.state=reopened", "c06.state=evicted", "c06.state=mixed", "c06.state=dirty", "visit.true-depths-checked", "visit.depths-checked", "c06.iterator-visits", "c06.concurrent-executions"} {
+			for _, k := range []string{"c06.visits", "c06.early-stops", "c06.nil-target", "c06.empty-collection-cases", "c06.cmp=rev", "c06.cmp=lenlex", "c06.state=reopened", "c06.state=evicted", "c06.state=mixed", "c06.state=dirty", "c06.state=snapshot-persisted-later", "c06.state=offsets-reused-after-revert", "visit.true-depths-checked", "visit.depths-checked", "c06.iterator-visits", "c06.concurrent-executions"} {
 				if st[k] == 0 {
 					return "no " + k + " observed"
 				}
@@ -43,8 +43,8 @@ func runC06(ctx *Ctx, idx int) Result {
 	if idx >= pick(ctx.Tier, 160, 6000) {
 		return runC06Concurrent(ctx, idx, r)
 	}
-	state := idx % 4 // 0 dirty, 1 reopened, 2 evicted, 3 mixed
-	cmp := []model.Cmp{model.CmpBytes, model.CmpRev, model.CmpLenLex}[(idx/4)%3]
+	state := idx % 6 // 0 dirty, 1 reopened, 2 evicted, 3 mixed, 4 snapshot persisted by the original afterwards, 5 offsets re-used after FlushRevert
+	cmp := []model.Cmp{model.CmpBytes, model.CmpRev, model.CmpLenLex}[(idx/6)%3]
 	size := r.Intn(41)
 	if idx%37 == 0 {
 		size = 0
@@ -53,7 +53,7 @@ func runC06(ctx *Ctx, idx int) Result {
 	name := "r"
 	e := driver.NewEnvCmps(fmt.Sprintf("c06-%d", idx), cfg, map[string]model.Cmp{name: cmp})
 	e.SetCollection(name, cmp)
-	keys := gen.Keys(r, size+4, []gen.KeyClass{gen.KeysShort, gen.KeysPrefix, gen.KeysDigits, gen.KeysMagic}[r.Intn(4)])
+	keys := gen.Keys(r, size+4, []gen.KeyClass{gen.KeysShort, gen.KeysPrefix, gen.KeysDigits, gen.KeysMagic, gen.KeysLong}[r.Intn(5)])
 	pg := gen.NewPrioGen(gen.PrioRegime(r.Intn(int(gen.NumPrioRegimes))))
 	for i := 0; i < size && !e.Failed(); i++ {
 		e.SetItem(name, keys[i], gen.Val(r, gen.ValsMixed, fmt.Sprintf("v%d", i), nil), pg.Next(r), false)
@@ -67,8 +67,44 @@ func runC06(ctx *Ctx, idx int) Result {
 			e.SetItem(name, k, gen.Val(r, gen.ValsMixed, fmt.Sprintf("w%d", i), nil), pg.Next(r), false)
 		}
 	}
+	snap := -1
+	switch state {
+	case 4:
+		// the snapshot is taken while everything is unwritten; the original then persists the shared
+		// nodes and items, so the snapshot's visits evict and re-load through locations written after it
+		e.Snapshot(-1)
+		snap = 0
+	case 5:
+		// items flushed, read back key-only, reverted away and replaced by others of the same record sizes
+		if !e.Failed() {
+			e.Flush()
+		}
+		nx := r.Range(2, 6)
+		xk := gen.Keys(r, nx, gen.KeysDigits)
+		xv := make([][]byte, nx)
+		for i := 0; i < nx && !e.Failed(); i++ {
+			xv[i] = gen.Val(r, gen.ValsShort, fmt.Sprintf("x%d", i), nil)
+			e.SetItem(name, append([]byte("x"), xk[i]...), xv[i], pg.Next(r), false)
+		}
+		if !e.Failed() {
+			e.Flush()
+		}
+		for i := 0; i < 2 && !e.Failed(); i++ {
+			e.Visit(-1, name, driver.VAsc, nil, false, -1)
+		}
+		if !e.Failed() {
+			e.FlushRevert()
+		}
+		for i := 0; i < nx && !e.Failed(); i++ {
+			v := append([]byte{}, xv[i]...)
+			if len(v) > 0 {
+				v[0] ^= 0x20
+			}
+			e.SetItem(name, append([]byte("y"), xk[i]...), v, pg.Next(r), false)
+		}
+	}
 	m := e.M.Live.Colls[name]
-	stateName := []string{"dirty", "reopened", "evicted", "mixed"}[state]
+	stateName := []string{"dirty", "reopened", "evicted", "mixed", "snapshot-persisted-later", "offsets-reused-after-revert"}[state]
 	ctx.Stats["c06.state="+stateName]++
 	ctx.Stats["c06.cmp="+string(cmp)]++
 	if len(m.Items) == 0 {
@@ -86,7 +122,7 @@ func runC06(ctx *Ctx, idx int) Result {
 			if n%6 == 0 {
 				e.Reopen(n%12 == 0)
 			}
-		case 2:
+		case 2, 5:
 			e.Evict(name, 1+n%4)
 		case 3:
 			for j := 0; j < 3; j++ {
@@ -144,7 +180,7 @@ func runC06(ctx *Ctx, idx int) Result {
 		refresh(ti)
 		for _, k := range kinds {
 			for _, wv := range []bool{false, true} {
-				e.Visit(-1, name, k, t, wv, -1)
+				e.Visit(snap, name, k, t, wv, -1)
 				visits++
 				if k == driver.VIterAsc || k == driver.VIterDesc {
 					ctx.Stats["c06.iterator-visits"]++
@@ -158,13 +194,13 @@ func runC06(ctx *Ctx, idx int) Result {
 		}
 		ka, kd := kinds[(ti%3)*2], kinds[(ti%3)*2+1]
 		for p := 0; p <= asc && !e.Failed(); p++ {
-			e.Visit(-1, name, ka, t, p%2 == 0, p)
+			e.Visit(snap, name, ka, t, p%2 == 0, p)
 			visits++
 			nontriv++
 			ctx.Stats["c06.early-stops"]++
 		}
 		for p := 0; p <= desc && !e.Failed(); p++ {
-			e.Visit(-1, name, kd, t, p%2 == 1, p)
+			e.Visit(snap, name, kd, t, p%2 == 1, p)
 			visits++
 			nontriv++
 			ctx.Stats["c06.early-stops"]++
